@@ -26,10 +26,15 @@ Definition sym := nat.
 Definition sort := nat.
 
 (* An opaque atom with its free symbols, each with its custom sort if it has one (None: Bool,
-   Int, BitVec); or the negation of a formula. *)
-Inductive form := FAtom (id : nat) (fv : list (sym * option sort)) | FNot (f : form).
+   Int, BitVec), and the custom sorts that occur elsewhere in it (sorts of quantifier-bound
+   variables, index / element sorts of constant array values); or the negation of a formula. *)
+Inductive form :=
+| FAtom (id : nat) (fv : list (sym * option sort)) (bound_sorts : list sort)
+| FNot (f : form).
 Fixpoint fva (f : form) : list (sym * option sort) :=
-  match f with FAtom _ fv => fv | FNot g => fva g end.
+  match f with FAtom _ fv _ => fv | FNot g => fva g end.
+Fixpoint fbound (f : form) : list sort :=
+  match f with FAtom _ _ bs => bs | FNot g => fbound g end.
 Definition fvs (f : form) : list sym := map fst (fva f).
 Fixpoint sorts_of (l : list (sym * option sort)) : list sort :=
   match l with
@@ -37,8 +42,9 @@ Fixpoint sorts_of (l : list (sym * option sort)) : list sort :=
   | (_, Some s) :: r => s :: sorts_of r
   | (_, None) :: r => sorts_of r
   end.
-(* self.to.get_types(formula, custom_only=True) for quantifier-free formulas over constants *)
-Definition fsorts (f : form) : list sort := sorts_of (fva f).
+(* self.to.get_types(formula, custom_only=True): the sorts of the free symbols and those that
+   occur only in binders / array constants *)
+Definition fsorts (f : form) : list sort := sorts_of (fva f) ++ fbound f.
 (* symbols of built-in sorts *)
 Definition plain (l : list sym) : list (sym * option sort) := map (fun x => (x, None)) l.
 
@@ -221,7 +227,8 @@ Section Spec.
              end
         else (s, RError)
     | CAssert f =>
-        if forallb (fun x => s_declared x s) (fvs f) (* declared before use *)
+        if forallb (fun x => s_declared x s) (fvs f) (* declared before use: symbols ... *)
+           && forallb (fun x => s_sort_declared x s) (fsorts f)   (* ... and sorts, binders included *)
         then match s with
              | [] => (s, RError)
              | l :: r => (mkL (ldecl l) (f :: lasserts l) (lsorts l) :: r, RSuccess)
@@ -421,7 +428,7 @@ Definition cmd_eqb (a b : command) : bool :=
                      | _, _ => false
                      end
   | CDeclareSort x, CDeclareSort y => Nat.eqb x y
-  | CAssert f, CAssert g => set_eqb (fvs f) (fvs g)
+  | CAssert f, CAssert g => set_eqb (fvs f) (fvs g)   (* the harness checks sorts via the declare-sort commands *)
   | CPush n, CPush m | CPop n, CPop m => Nat.eqb n m
   | CGetValue t, CGetValue u => set_eqb t u
   | _, _ => false
